@@ -188,7 +188,7 @@ fn history<N: Ref>(seed: u64, rewriting: bool) -> Result<(), String> where N::Da
     Ok(())
 }
 
-fn run_for<N: Ref>(fails: &mut Vec<String>, deep: bool) where N::Data: std::fmt::Debug {
+fn run_for<N: Ref>(mut fails: &mut Vec<String>, deep: bool) where N::Data: std::fmt::Debug {
     let mut n = 0;
     let seeds: u64 = if deep { verif_scale(2000) } else { 100 };
     for seed in 1..=seeds { for rewriting in [true, false] {
